@@ -23,7 +23,7 @@ FUNCTIONS = [
     "flow.record.selector:RecordContextMatcher.matches",
     "flow.record.selector:RecordContextMatcher._eval",
 ]
-BOUNDS = {"records per source": "N <= 4 (quick) / 6 (thorough), every outcome vector in {0,1}^N", "purity": "all ints, strings <= 3 chars, for a fixed list of selector programs"}
+BOUNDS = {"kinds": "histories of 3 (4 thorough) records over 7 kinds (same-name layouts, grouped records of different composition, nested holder) x 15 programs, one selector object", "records per source": "N <= 4 (quick) / 6 (thorough), every outcome vector in {0,1}^N", "purity": "all ints, strings <= 3 chars, for a fixed list of selector programs"}
 STUBS = [
     "decoding collaborators of each reader (read/packer.unpack/fastavro reader/csv reader/read_table) hand out prepared records",
     "selector = object whose match() returns the i-th symbolic boolean and logs its argument",
@@ -276,6 +276,93 @@ def purity(expr: str, engine: str):
     return check
 
 
+KIND_EXPRS = [
+    "'evil' in Type.string",
+    "Type.varint == 3",
+    "Type.string == 'evil'",
+    "field_contains(r, Type.string, ['evil'])",
+    "field_equals(r, Type.string, ['evil'], nocase=False)",
+    "r.x == 3",
+    "r.k == 3 or r.n == 3",
+    "r.w == 'evil' or r.u == 'evil'",
+    "has_field(r, 'k')",
+    "name(r) == 'grp' and r.x != 1",
+    "names(r) == ['t/a', 't/c']",
+    "any(v == 3 for v in [r.x, r.k, r.n])",
+    "r.n == 'three'",
+    "Type.record.k == 3",
+    "len(fields('string')) == 1",
+]
+_KINDS = None
+
+
+def kinds():
+    """records of different kinds that one selector object meets in one stream: layouts sharing a type name, grouped records of
+    different composition under one group name, a holder with a nested record"""
+    global _KINDS
+    if _KINDS is None:
+        from flow.record import GroupedRecord, RecordDescriptor
+
+        D = RecordDescriptor("test/rec", [("varint", "n"), ("string", "s")])
+        D2 = RecordDescriptor("test/rec", [("string", "n"), ("varint", "k"), ("string", "w")])
+        A = RecordDescriptor("t/a", [("varint", "x")])
+        B = RecordDescriptor("t/b", [("string", "u")])
+        C = RecordDescriptor("t/c", [("string", "w"), ("varint", "k")])
+        H = RecordDescriptor("test/rec", [("record", "inner"), ("varint", "n")])
+        _KINDS = [
+            D(3, "a"),
+            D2("three", 3, "evil"),
+            GroupedRecord("grp", [A(3), B("evil")]),
+            GroupedRecord("grp", [A(1), C("evil", 3)]),
+            GroupedRecord("grp", [C("x", 1)]),
+            H(C("evil", 3), 1),
+            D(0, "evil"),
+        ]
+    return _KINDS
+
+
+def _outcome(sel, rec):
+    try:
+        return bool(sel.match(rec))
+    except Exception as e:  # noqa: BLE001 - an expression undefined on this record: the outcome is the exception class
+        return type(e).__name__
+
+
+def kind_history(engine: str, first: int, k: int):
+    """One selector object matches a symbolic history of k records of different kinds: every verdict equals the verdict of a fresh
+    selector on that record alone, and no record changes (path-exhaustive over histories; the concrete part runs untraced)."""
+    from crosshair.tracers import NoTracing
+    from flow.record.selector import CompiledSelector, Selector
+
+    cls = Selector if engine == "i" else CompiledSelector
+    K = kinds()
+    nk = len(K)
+    fresh = {(e, j): _outcome(cls(e), K[j]) for e in KIND_EXPRS for j in range(nk)}
+
+    def check(c1: int, c2: int, c3: int) -> bool:
+        """
+        post: _
+        """
+        codes = [c1, c2, c3][: k - 1]
+        if not all(0 <= c < nk for c in codes):
+            return True
+        hist = [first]
+        for c in codes:
+            for j in range(nk):
+                if c == j:
+                    hist.append(j)
+        with NoTracing():
+            packs = [repr(r._pack()) for r in K]
+            for e in KIND_EXPRS:
+                sel = cls(e)
+                for j in hist:
+                    if _outcome(sel, K[j]) != fresh[(e, j)]:
+                        return False
+            return packs == [repr(r._pack()) for r in K]
+
+    return check
+
+
 def obligations(tier, seed):
     n = 4 if tier == "quick" else 6
     obs = []
@@ -284,6 +371,11 @@ def obligations(tier, seed):
     for reader in ("stream", "sqlite"):
         obs.append(ob(f"O1-noselector/{reader}", "xh", "noselector", {"reader": reader}, timeout=20, bounds="k <= 6 records"))
     obs.append(ob("O1-make_selector", "xh", "mksel", {}, timeout=20, bounds="kinds of selector argument x force_compiled"))
+    k = 3 if tier == "quick" else 4
+    for eng in "ic":
+        for first in range(len(kinds())):
+            obs.append(ob(f"O2-kinds/{eng}/K{k}/first{first}", "xh", "kind_history", {"engine": eng, "first": first, "k": k}, timeout=60 if tier == "quick" else 240, group="O2-kinds",
+                          bounds=f"histories of {k} records over {len(kinds())} kinds x {len(KIND_EXPRS)} programs, one selector object per history"))
     exprs = PURITY_EXPRS if tier == "thorough" else PURITY_EXPRS[:13]
     for i, e in enumerate(exprs):
         for eng in "ic":
@@ -355,6 +447,39 @@ def replay(res):
         if make_selector(c) is not c or make_selector(c, True) is not c:
             probs.append("CompiledSelector object not passed through")
         return {"reproduced": bool(probs), "key": "C10/make_selector", "what": "; ".join(probs), "input": {}}
+    if "O2-kinds" in gid:
+        from flow.record import RecordReader, RecordWriter
+        from flow.record.selector import CompiledSelector, Selector
+
+        cls = Selector if a["engine"] == "i" else CompiledSelector
+        v = cex_args(res, ["c1", "c2", "c3"])
+        K = kinds()
+        hist = [a["first"]] + [c for c in [v.get("c1"), v.get("c2"), v.get("c3")][: a["k"] - 1] if isinstance(c, int) and 0 <= c < len(K)]
+        # through a real stream: one reader (one selector object) over the history vs. reading everything and testing each record afresh
+        with tempdir() as d:
+            path = os.path.join(d, "h.records")
+            w = RecordWriter(path)
+            for j in hist:
+                w.write(K[j])
+            w.flush()
+            w.close()
+            for e in KIND_EXPRS:
+                try:
+                    with RecordReader(path, selector=cls(e)) as rd:
+                        got = [repr(r) for r in rd]
+                except Exception as ex:  # noqa: BLE001
+                    got = type(ex).__name__
+                want = []
+                try:
+                    with RecordReader(path) as rd:
+                        for r in rd:
+                            if cls(e).match(r):
+                                want.append(repr(r))
+                except Exception as ex:  # noqa: BLE001
+                    want = type(ex).__name__
+                if got != want:
+                    return {"reproduced": True, "key": f"C10/kinds/{a['engine']}/{e}", "what": f"{cls.__name__}({e!r}) over the history of record kinds {hist}: the reader's selector keeps {got}, filtering afterwards keeps {want}"[:900], "input": {"expr": e, "history": hist}}
+        return {"reproduced": False, "what": f"history {hist}: reading with the selector equals filtering afterwards for every program"}
     if "O2-purity" in gid:
         from flow.record import RecordDescriptor
         from flow.record.selector import CompiledSelector, Selector
